@@ -218,3 +218,41 @@ def s9(facts, rep):
                     path = " (item kind: %s)" % ", ".join(sorted(kinds))
             rep.check(not bad, "S9", short, "item-filtered-by-overlay-deletions", "in %s a stored item returned by the beatree iterator at %s can become the completed leaf without being checked against the overlay's deletions%s: a key deleted in an uncommitted ancestor is proved / hashed as if it still existed" % (short, body.term(nb).get("ln"), path), site=body.term(nb).get("ln"), detail="every path next() -> LeafData passes one of the %d filter call(s) at bb%s whose result can send the loop back for the next item (or the filter's own guard on the deletions at bb%s)" % (len(filters), filters, guards))
     return n
+
+
+# ---- S10: every updated merkle page is handed on ------------------------------------------------------
+# A session's merkle update produces the set of changed pages (`UpdatedPages`); committing it directly and parking it in an
+# overlay that is committed later must give the store the same pages - including the CLEARED ones, whose bucket is only known
+# (and released) at commit time.  Rule: `UpdatedPages::into_frozen_iter` and the page arguments the commit entry points hand
+# to `Store::commit` / the overlay are built with element-preserving adapters only; an adapter that can drop an element
+# (filter, filter_map, skip, take, take_while, map_while, step_by, zip ..) is a violation.
+S10_FN = "nomt::merkle::UpdatedPages::into_frozen_iter"
+DROPPING_ADAPTERS = ("filter", "filter_map", "skip", "skip_while", "take", "take_while", "map_while", "step_by", "zip", "scan", "flat_map", "dedup", "dedup_by", "dedup_by_key", "retain", "truncate", "drain", "nth", "last")
+
+
+def s10(facts, rep):
+    body = facts.bodies.get(S10_FN)
+    if body is None:
+        raise CheckBroken("anchor missing: %s" % S10_FN)
+    short = body.id.split("::", 1)[1]
+    n = 0
+    fam = [body] + [b for i, b in facts.bodies.items() if i.startswith(S10_FN + "::{closure")]
+    loops = any(body.dominates(s_, b_) for b_ in range(body.n) for s_ in body.succ(b_) if not body.is_cleanup(b_))
+    if loops:
+        rep.notes.append("S10: %s is no longer a chain of iterator adapters (it has a loop): not decided" % short)
+        return 0
+    bad = []
+    seen = []
+    for bd in fam[:1]:
+        for b, t in bd.calls():
+            c = t.get("callee") or ""
+            if bd.is_cleanup(b):
+                continue
+            m = c.rsplit("::", 1)[-1]
+            if "iter" in c.lower() or c.startswith(("alloc::vec::Vec", "core::slice")):
+                seen.append(m)
+                if m in DROPPING_ADAPTERS:
+                    bad.append((m, t.get("ln")))
+    n += 1
+    rep.check(not bad, "S10", short, "element-preserving-adapters", "%s builds the pages handed to the store / the overlay with `%s` (at %s), which can drop an updated page: a page cleared in an overlay whose bucket is not known yet would never be released at commit, so the chain's commit differs from direct commits" % (short, ", ".join(m for m, _l in bad), ", ".join(str(l) for _m, l in bad)), site=body.span, detail="adapters used: %s" % ", ".join(seen))
+    return n
